@@ -21,12 +21,13 @@ Record dnskey := {
   k_owner : list label; k_class : N; k_flags : N; k_proto : N; k_alg : N; k_pub : bytes }.
 
 (* the types whose RDATA names rawSignatureData lower-cases (the switch on r1.(type)):
-   NS MD MF CNAME SOA MB MG MR PTR MINFO MX RP AFSDB RT SIG PX SRV NAPTR KX DNAME *)
+   NS MD MF CNAME SOA MB MG MR PTR MINFO MX RP AFSDB RT SIG PX NXT SRV NAPTR KX DNAME
+   (NXT since fix 14c62e1) *)
 Definition code_lower_types : list N :=
-  [2; 3; 4; 5; 6; 7; 8; 9; 12; 14; 15; 17; 18; 21; 24; 26; 33; 35; 36; 39].
+  [2; 3; 4; 5; 6; 7; 8; 9; 12; 14; 15; 17; 18; 21; 24; 26; 30; 33; 35; 36; 39].
 (* RFC 4034 6.2 (3) as corrected by RFC 6840 5.1 (HINFO has no names, NSEC is
-   not lower-cased): the above plus NXT (30), A6 (38) and RRSIG (46) *)
-Definition rfc4034_6_2_types : list N := code_lower_types ++ [30; 38; 46].
+   not lower-cased): the above plus A6 (38, no Go type) and RRSIG (46, never signed) *)
+Definition rfc4034_6_2_types : list N := code_lower_types ++ [38; 46].
 Definition mem (x : N) (l : list N) : bool := existsb (N.eqb x) l.
 Definition lowered (ty : N) : bool := mem ty code_lower_types.
 
@@ -175,8 +176,9 @@ Section Crypto.
   Variable sk : Type.
   Variable sig_sign : sk -> N -> bytes -> bytes.
 
+  (* strings.HasPrefix(h0.Name, "*."): the first label is exactly "*" (fix 893029e) *)
   Definition star_prefix (n : list label) : bool :=
-    match n with (42 :: _) :: _ => true | _ => false end.
+    match n with [42] :: _ => true | _ => false end.
 
   (* the fields Sign copies from the RRset *)
   Definition sign_fill (sig : rrsig) (r0 : rr) : rrsig :=
